@@ -21,6 +21,9 @@ type c05Case struct {
 	// the signature-identifier half of the property on RSA-4096/8192, whose generation is too slow for the quick tier)
 	PrePlaced bool `json:",omitempty"`
 	Repeat    int  `json:",omitempty"` // distinguishes repeated draws of the same cell (fresh random keys)
+	// IssuerSig: the issuer's own configured signatureAlgorithm ("" = SHA-256 of its scheme, "omitted" = none written).
+	// It says how the issuer's certificate is signed and nothing about the certificates the issuer signs.
+	IssuerSig string `json:",omitempty"`
 }
 
 // documented meaning of the EC names (RFC 5480 / RFC 5639 object identifiers)
@@ -39,6 +42,13 @@ func checkC05(c c05Case) (*core.Failure, string) {
 	}
 	if c.IssuerAlg != "" {
 		iss := core.Entity{File: "issuer.yaml", Subject: []core.RDN{{Key: "CN", Value: "C05 issuer"}}, KeyAlg: c.IssuerAlg, SigAlg: fittingSigAlgs(keyKind(c.IssuerAlg))[1]}
+		switch c.IssuerSig {
+		case "":
+		case "omitted":
+			iss.SigAlg = ""
+		default:
+			iss.SigAlg = c.IssuerSig
+		}
 		w.Ents = append(w.Ents, iss)
 		w.Files["issuer.pem"] = core.PemBlock("PRIVATE KEY", pkcs8Fixed(c.IssuerAlg, 7))
 		ent.Issuer = "issuer"
@@ -156,6 +166,10 @@ func TestC05(t *testing.T) {
 					continue
 				}
 				c := c05Case{KeyAlg: ka, SigAlg: sa, IssuerAlg: issuer}
+				if issuer != "" {
+					// the issuer's own signature algorithm rotates through everything that fits its key (and "not written")
+					c.IssuerSig = append(append([]string{}, fittingSigAlgs(keyKind(issuer))...), "omitted")[i%5]
+				}
 				r.Report("cell", c, wrap(c))
 			}
 		}
@@ -170,6 +184,9 @@ func TestC05(t *testing.T) {
 				continue
 			}
 			c := c05Case{KeyAlg: ka, SigAlg: "", IssuerAlg: []string{"", "P-384"}[rep%2], Repeat: rep + 1}
+			if c.IssuerAlg != "" {
+				c.IssuerSig = []string{"ECDSAwithSHA384", "ECDSAwithSHA512", "omitted", "ECDSAwithSHA1", ""}[rep/2%5]
+			}
 			r.Report("cell", c, wrap(c))
 		}
 	}
